@@ -270,6 +270,16 @@ func genServerScript(rt *rapid.T) scriptCase {
 		method = "x-socketace"
 	}
 	reqLine := method + " " + []string{"/", "/x", "*"}[rapid.IntRange(0, 2).Draw(rt, "url")] + " HTTP/1.1"
+	if mutation == "no-version-header" && rapid.Bool().Draw(rt, "longFirstLine") {
+		// the version offer is not a header of its own but the tail of an over-long first line (lengths around the
+		// reader's buffer size): such a request offers no version
+		pad := []int{4096, 4095, 4097, 8192, 4000}[rapid.IntRange(0, 4).Draw(rt, "firstLineLength")] - len(reqLine) - 1
+		if pad < 0 {
+			pad = 0
+		}
+		reqLine += ";" + strings.Repeat("x", pad) + "Accepts-Protocol-Version: " + version.ProtocolVersion
+		mutation = "no-version-header-long-first-line"
+	}
 	if mutation == "request-line-spaces" {
 		reqLine = []string{"X-SOCKETACE", "X-SOCKETACE/", "X-SOCKETACE /"}[rapid.IntRange(0, 2).Draw(rt, "rl")]
 	}
@@ -277,7 +287,7 @@ func genServerScript(rt *rapid.T) scriptCase {
 	a.WriteString(reqLine + nl)
 	a.WriteString(extraHeaders(rt, nl))
 	switch mutation {
-	case "no-version-header":
+	case "no-version-header", "no-version-header-long-first-line":
 	case "no-common-version":
 		a.WriteString(caseVariant(rt, "Accepts-Protocol-Version") + ": " + versionList(rt, false) + nl)
 	default:
@@ -305,7 +315,7 @@ func genServerScript(rt *rapid.T) scriptCase {
 		u.WriteString(caseVariant(rt, "Upgrade") + ": socketace/9.9.9" + nl)
 	default:
 		token := "socketace/" + version.ProtocolVersion
-		if mutation == "no-common-version" || mutation == "no-version-header" {
+		if mutation == "no-common-version" || mutation == "no-version-header" || mutation == "no-version-header-long-first-line" {
 			// a peer that was told "no common version" and goes on regardless may ask for anything it likes
 			token = []string{token, token, "socketace/", "socketace", "socketace/9.9.9", "socketace/ "}[rapid.IntRange(0, 5).Draw(rt, "tokenAfterConflict")]
 		}
